@@ -28,9 +28,13 @@ func OK_SignedDiv() {
 	q := a / -1
 	vAssert(q == -a, "div by -1")
 	vAssert((-7)/2 == -3 && (-7)%2 == -1, "const trunc div")
-	b := vI32("b")
-	vAssume(b != 0 && !(a == -2147483648 && b == -1))
-	vAssert((a/b)*b+(a%b) == a, "div/rem law")
+	c, b := vI8("c"), vI8("b")
+	vAssume(b != 0 && !(c == -128 && b == -1))
+	vAssert((c/b)*b+(c%b) == c, "div/rem law")
+	d := vI64("d")
+	vAssert(d/1000000*1000000+d%1000000 == d, "div/rem law, constant divisor (division elimination)")
+	e := vU64("e")
+	vAssert(e/1000*1000+e%1000 == e && e%1000 < 1000, "unsigned constant divisor")
 }
 
 func BAD_DivZero() {
